@@ -401,13 +401,19 @@ def attrs_definite_in_constructor(ck, rule, mod, qual, max_atoms=10):
     for values in itertools.product((True, False), repeat=len(atoms)):
         env = dict(zip(atoms, values))
         run(fn.body, set(), env)
+    reported_attrs = set()
     for (attr, _ln), (read, stmt, envs) in sorted(findings.items(), key=lambda kv: kv[0][1]):
         # the conditions every failing assignment agrees on
         rel = {a: envs[0][a] for a in atoms if all(e[a] == envs[0][a] for e in envs)}
         wit = ', '.join('%s is %s' % (a, v) for a, v in rel.items())
-        ck.bad(rule, mod, stmt, qual, 'read of self.%s in: %s' % (attr, u(stmt)[:100]),
-               'no store to self.%s precedes this read on the path selected by {%s}: AttributeError '
-               '(with __slots__ there is no default) for inputs satisfying these conditions' % (attr, wit), wit)
+        if attr in reported_attrs:
+            continue
+        reported_attrs.add(attr)
+        # the construct names the attribute only (stable under renames/temporaries); the
+        # statement and the selecting conditions go to the detail
+        ck.bad(rule, mod, stmt, qual, 'self.%s is read before any store on some path of the constructor' % attr,
+               'e.g. `%s`: no store to self.%s precedes this read on the path selected by {%s}: AttributeError '
+               '(with __slots__ there is no default) for inputs satisfying these conditions' % (u(stmt)[:100], attr, wit), wit)
     n = len(reads_seen)
     if not findings:
         ck.ok(rule, mod, fn, '%s: %d attribute reads x %d assignments of %d conditions' % (qual, n, 2 ** len(atoms), len(atoms)),
